@@ -30,11 +30,11 @@ pub const DIMS: [(&str, u8); NDIM] = [
     ("segLimit", 4),  // 0 none | 1 limit 1 on all route segments | 2 limit 2 on all | 3 limit 1 on direction-0 routes only
     ("shunting", 4),  // (minimal, deadHead): 0 (0,0) | 1 (300,0) | 2 (0,300) | 3 (600,600)
     ("forbid", 2),    // forbidDeadHeadTrips: 0 absent | 1 true
-    ("depots", 8),    // 0 absent | 1 [] | 2 one depot cap 1 | 3 one depot cap 2 | 4 two depots cap 1 each | 5 total 5, per-type 1 | 6 type not listed | 7 two depots cap 5
+    ("depots", 9),    // 0 absent | 1 [] | 2 one depot cap 1 | 3 one depot cap 2 | 4 two depots cap 1 each | 5 total 5, per-type 1 | 6 type not listed | 7 two depots cap 5 | 8 two depots at the SAME location, cap 1 each
     ("maint", 6),     // 0 absent | 1 slot x1 track | 2 slot x2 tracks | 3 two slots | 4 slot overlapping/tying the trips | 5 slot but parameters.maintenance absent
     ("maxDist", 2),   // 0 large | 1 binding
     ("deadHeads", 4), // 0 symmetric | 1 asymmetric | 2 slower than a service trip | 3 three locations, non-metric
-    ("costs", 4),     // 0 default | 1 all zero | 2 dead-head cheaper than service | 3 idle dominant
+    ("costs", 5),     // 0 default | 1 all zero | 2 dead-head cheaper than service | 3 idle dominant | 4 idle three orders of magnitude above everything else
     ("seated", 2),    // 0 capacity binding | 1 seats binding
     ("twoSeg", 2),    // 0 one-segment routes | 1 direction-0 departures run a two-segment route
     ("extraLoc", 2),  // 0 | 1 an unused third location
@@ -337,9 +337,14 @@ impl Inst {
                     {"id": "dB", "location": "L1", "capacity": 1, "allowedTypes": all_types_unlimited}
                 ]))
             }
-            _ => Some(json!([
+            7 => Some(json!([
                 {"id": "dA", "location": "L0", "capacity": 5, "allowedTypes": all_types_unlimited},
                 {"id": "dB", "location": "L1", "capacity": 5, "allowedTypes": all_types_unlimited}
+            ])),
+            // two depots at one location (a vehicle may end "at the right place" but in the wrong depot)
+            _ => Some(json!([
+                {"id": "dA", "location": "L0", "capacity": 1, "allowedTypes": all_types_unlimited},
+                {"id": "dB", "location": "L0", "capacity": 1, "allowedTypes": all_types_unlimited}
             ])),
         };
 
@@ -347,7 +352,9 @@ impl Inst {
             0 => json!({"staff": 100, "serviceTrip": 50, "maintenance": 10, "deadHeadTrip": 500, "idle": 20}),
             1 => json!({"staff": 0, "serviceTrip": 0, "maintenance": 0, "deadHeadTrip": 0, "idle": 0}),
             2 => json!({"staff": 100, "serviceTrip": 50, "deadHeadTrip": 10, "idle": 20}),
-            _ => json!({"staff": 100, "serviceTrip": 50, "maintenance": 10, "deadHeadTrip": 500, "idle": 1000}),
+            3 => json!({"staff": 100, "serviceTrip": 50, "maintenance": 10, "deadHeadTrip": 500, "idle": 1000}),
+            // waiting is what costs (an hour of idling outweighs a vehicle unless the vehicle price accounts for idle)
+            _ => json!({"staff": 1, "serviceTrip": 1, "maintenance": 1, "deadHeadTrip": 1, "idle": 1000}),
         };
 
         let mut params = json!({
